@@ -404,4 +404,142 @@ example : ∃ cfg : KSConfig, cfg.key ≠ [] ∧ 1000000000 ≤ cfg.ttlNs ∧
     ((1790138044 : Int) * 1000000000 + cfg.ttlNs) / 1000000000 < 2 ^ 32 :=
   ⟨⟨true, 1209600 * 1000000000, ['k']⟩, by decide, by decide, by decide⟩
 
+
+/-! ### SignManifest -/
+
+/-- `SignManifest` rewrites whitespace-free fields and nothing else. Every manifest text (any
+bytes) is, in exactly the way `render` spells out, a first field followed by (whitespace
+character, field) pairs; the signed manifest is the same layout with `signToken` applied to every
+field: the same whitespace characters in the same places (in particular
+`filter isSpace` of the text is unchanged), and the new fields are again whitespace-free. -/
+theorem C07_sign_manifest_preserves (m tok key : Str) (exp ttlNs : Int) :
+    ∃ f0 rest, IsLayout f0 rest ∧ m = render f0 rest ∧
+      signManifest mac m tok exp ttlNs key =
+        render (signToken mac tok exp ttlNs key f0)
+          (rest.map (fun p => (p.1, signToken mac tok exp ttlNs key p.2))) ∧
+      IsLayout (signToken mac tok exp ttlNs key f0)
+        (rest.map (fun p => (p.1, signToken mac tok exp ttlNs key p.2))) ∧
+      (signManifest mac m tok exp ttlNs key).filter isSpace = m.filter isSpace := by
+  obtain ⟨f0, rest, hl, rfl⟩ := exists_layout m
+  have hsm : signManifest mac (render f0 rest) tok exp ttlNs key =
+      render (signToken mac tok exp ttlNs key f0)
+        (rest.map (fun p => (p.1, signToken mac tok exp ttlNs key p.2))) := by
+    unfold signManifest
+    rw [mapFields_render _ [] f0 rest hl]
+    simp
+  have hl' : IsLayout (signToken mac tok exp ttlNs key f0)
+      (rest.map (fun p => (p.1, signToken mac tok exp ttlNs key p.2))) := by
+    refine ⟨signToken_noSpace mac tok exp ttlNs key hl.first, ?_, ?_⟩
+    · intro p hp
+      obtain ⟨q, hq, rfl⟩ := List.mem_map.mp hp
+      exact hl.seps q hq
+    · intro p hp
+      obtain ⟨q, hq, rfl⟩ := List.mem_map.mp hp
+      exact signToken_noSpace mac tok exp ttlNs key (hl.fields q hq)
+  refine ⟨f0, rest, hl, rfl, hsm, hl', ?_⟩
+  rw [hsm, filter_isSpace_render _ _ hl', filter_isSpace_render _ _ hl]
+  simp [List.map_map, Function.comp_def]
+
+/-- The layout used in `C07_sign_manifest_preserves` is the only one a text has, so "the fields"
+and "the whitespace" of a manifest are well defined. -/
+theorem C07_layout_unique {f0 g0 : Str} {rest rest' : List (Char × Str)}
+    (h1 : IsLayout f0 rest) (h2 : IsLayout g0 rest') (h : render f0 rest = render g0 rest') :
+    f0 = g0 ∧ rest = rest' := layout_unique h1 h2 h
+
+example : IsLayout ['.'] [(' ', ['a']), ('\n', [])] ∧ render ['.'] [(' ', ['a']), ('\n', [])] = ". a\n".toList := by
+  refine ⟨⟨by simp [NoSpace, isSpace], by decide, by simp [NoSpace, isSpace]⟩, by decide⟩
+
+/-- the empty field (between two adjacent whitespace characters, or at either end) stays empty, so
+applying the callback to it — which `ReplaceAllStringFunc(`\S+`)` never does — changes nothing -/
+theorem C07_sign_token_empty (tok key : Str) (exp ttlNs : Int) :
+    signToken mac tok exp ttlNs key [] = [] := signToken_nil mac tok exp ttlNs key
+
+/-- A field that does not begin with 32 lowercase hex digits (stream names, file tokens, anything
+else) is returned byte for byte. -/
+theorem C07_sign_token_other (tok key t : Str) (exp ttlNs : Int) (h : isBlockToken t = false) :
+    signToken mac tok exp ttlNs key t = t := by
+  simp [signToken, h]
+
+/-- A block token `h+f₁+…+fₙ` becomes `h`, then the fields not starting with `A` unchanged and in
+order (size and all other hints), then exactly one fresh signature hint for `h` — computed as in
+`C07_message_format`. Without key or token the old signatures are dropped and none is added. -/
+theorem C07_sign_token_block {tok key t h : Str} {fs : List Str} {exp ttlNs : Int}
+    (hb : isBlockToken t = true) (e : splitOn '+' t = h :: fs) :
+    (key ≠ [] → tok ≠ [] →
+      signToken mac tok exp ttlNs key t =
+        h ++ hints (fs.filter notPermHint ++
+          [sigField (makePermSignature mac h tok (fmt08x exp) (ttlHex ttlNs) key) (fmt08x exp)])) ∧
+    ((key = [] ∨ tok = []) →
+      signToken mac tok exp ttlNs key t = h ++ hints (fs.filter notPermHint)) := by
+  refine ⟨fun hk ht => signToken_block mac hb hk ht e, ?_⟩
+  intro h0
+  have : (key.isEmpty || tok.isEmpty) = true := by
+    rcases h0 with rfl | rfl <;> simp
+  simp [signToken, hb, signLocator, this, stripPermHints_fields e]
+
+/-- Dropping all signature hints from the signed token gives the same text as dropping them from
+the original token: hash, size and other hints are untouched. -/
+theorem C07_sign_token_strip {tok key t : Str} {exp ttlNs : Int} (hb : isBlockToken t = true) :
+    stripPermHints (signToken mac tok exp ttlNs key t) = stripPermHints t := by
+  obtain ⟨h, fs, e⟩ : ∃ h fs, splitOn '+' t = h :: fs := by
+    cases hs : splitOn '+' t with
+    | nil => exact absurd hs (splitOn_ne_nil _ _)
+    | cons h fs => exact ⟨h, fs, rfl⟩
+  obtain ⟨_, hh, hfs⟩ := splitOn_eq_cons e
+  have hidem : (fs.filter notPermHint).filter notPermHint = fs.filter notPermHint := by
+    rw [List.filter_filter]; simp
+  have hff : ∀ g ∈ fs.filter notPermHint, Free '+' g := fun g hg => hfs g (List.mem_filter.mp hg).1
+  by_cases h0 : key = [] ∨ tok = []
+  · rw [(C07_sign_token_block mac hb e).2 h0, stripPermHints_fields e,
+      stripPermHints_fields (splitOn_hints hh hff), hidem]
+  · have hk : key ≠ [] := fun h => h0 (Or.inl h)
+    have ht : tok ≠ [] := fun h => h0 (Or.inr h)
+    rw [(C07_sign_token_block mac hb e).1 hk ht, stripPermHints_fields e]
+    have hsf : Free '+' (sigField (makePermSignature mac h tok (fmt08x exp) (ttlHex ttlNs) key) (fmt08x exp)) := by
+      intro c hc
+      simp only [sigField, List.mem_cons, List.mem_append] at hc
+      rcases hc with rfl | hc | rfl | hc
+      · decide
+      · exact ne_plus_of_isXDigit (isXDigit_of_isLowerHex
+          (List.all_eq_true.mp (hexOfDigest_lowerHex _) c hc))
+      · decide
+      · rcases fmt08x_chars exp c hc with h1 | rfl
+        · exact ne_plus_of_isXDigit (isXDigit_of_isLowerHex h1)
+        · decide
+    have hff' : ∀ g ∈ fs.filter notPermHint ++
+        [sigField (makePermSignature mac h tok (fmt08x exp) (ttlHex ttlNs) key) (fmt08x exp)], Free '+' g := by
+      intro g hg
+      rcases List.mem_append.mp hg with hg | hg
+      · exact hff g hg
+      · simp at hg; subst hg; exact hsf
+    rw [stripPermHints_fields (splitOn_hints hh hff'), List.filter_append, hidem]
+    simp [notPermHint, sigField]
+
+/-- Every locator of a manifest that is well-formed once its old signatures are dropped (32-digit
+hash, optional size, ordinary hints) verifies after `SignManifest` for the signing token, key and
+TTL until the expiry passes — whatever signatures (valid, stale or junk) it carried before. -/
+theorem C07_signed_manifest_locator_verifies {tok key t h : Str} {fs size hs : List Str}
+    {exp ttlNs nowNs : Int}
+    (e : splitOn '+' t = h :: fs) (hl : h.length = 32) (hx : h.all isLowerHex = true)
+    (hkeep : fs.filter notPermHint = size ++ hs)
+    (hsize : size = [] ∨ ∃ d, size = [d] ∧ isSizeField d = true)
+    (hh : ∀ f ∈ hs, isOtherHint f = true)
+    (hk : key ≠ []) (ht : tok ≠ []) (h0 : 0 ≤ exp) (h32 : exp < 2 ^ 32)
+    (hmac : ∀ k m, (mac k m).length = 20) :
+    verifySignature mac (signToken mac tok exp ttlNs key t) tok ttlNs key nowNs =
+      if exp * 1000000000 < nowNs then .expired else .ok := by
+  have hb : isBlockToken t = true := by
+    rw [(splitOn_eq_cons e).1]
+    simp [isBlockToken, List.take_append_of_le_length (Nat.le_of_eq hl.symm), List.take_of_length_le (Nat.le_of_eq hl), hl, hx]
+  have hloc : IsUnsignedLocator (stripPermHints t) h :=
+    ⟨size, hs, by rw [stripPermHints_fields e, hkeep], hl, all_isXDigit_of_all_isLowerHex hx, hsize, hh⟩
+  have := C07_verify_sign mac (ttlNs := ttlNs) (ttlNs' := ttlNs) (nowNs := nowNs) (hs2 := [])
+    hloc hk ht h0 h32 hmac (by simp) rfl
+  simp only [hints_nil, List.append_nil] at this
+  simpa [signToken, hb] using this
+
+example : splitOn '+' "0123456789abcdef0123456789abcdef+3+Afoo+Kx".toList =
+    ["0123456789abcdef0123456789abcdef".toList, ['3'], ['A', 'f', 'o', 'o'], ['K', 'x']] ∧
+    (["3".toList, "Afoo".toList, "Kx".toList].filter notPermHint = [['3']] ++ [['K', 'x']]) := by decide
+
 end ArvVerif.C07
